@@ -63,7 +63,7 @@ pub fn observer_for(id: &str) -> Option<fn() -> Box<dyn Obs>> {
 
 /// Properties whose text covers a start position with a piece hanging on a trap (C10: "once any
 /// action has been applied no piece stands on a trap square without an adjacent friendly piece").
-const HANGING_OK: [&str; 9] = ["C02", "C03", "C05", "C06", "C08", "C10", "C14", "C15", "C19"];
+pub const HANGING_OK: [&str; 9] = ["C02", "C03", "C05", "C06", "C08", "C10", "C14", "C15", "C19"];
 
 pub fn legs(id: &str) -> Vec<Leg> {
     let mut v = legs_base(id);
